@@ -52,7 +52,12 @@ func (w *Wrs) Add(rec ResourceRecord, data []byte) error {
 		return fmt.Errorf("Unsupported type %d", rec.Qtype)
 	}
 
-	key := math.Pow(float64(localRand.Uint32())*float64(1.0/math.MaxUint32), 1.0/float64(rec.Weight))
+	// u is uniform in the OPEN interval (0, 1): a draw of 0 must not give a
+	// positive-weight record the key 0 (it would be dropped from the answer) and
+	// a draw of MaxUint32 must not give u = 1, whose power 1/0 = +Inf is 1, i.e.
+	// a weight-0 record with the winning key.
+	u := (float64(localRand.Uint32()) + 0.5) * float64(1.0/(1<<32))
+	key := math.Pow(u, 1.0/float64(rec.Weight))
 	wrsItem := WrsItem{Key: key,
 		TTL:  rec.TTL,
 		Addr: data[rec.Offset:]}
